@@ -279,15 +279,21 @@ def stepRun (s : St) (impl : String) : St × StepOut := Id.run do
   if natOf (m.get "t") > natOf (m.get "bound") then
     fails := fails ++ [("dial_exceeds_handshake_timeout", "-", impl)]
   if dial == "nil" then
-    let agree := m.get "acc" == "ok" && m.get "cv" == m.get "sv" && m.get "calpn" == m.get "salpn" && m.get "calpn" != "" &&
-      m.get "c0" == m.get "s0" && m.get "cids" == "ok" && m.get "echo" == "ok"
-    -- known finding: with a zero-length source connection ID (Chrome parrot) a dial restarted after Version
-    -- Negotiation loses its packet-handler entry when the first attempt's closed-connection placeholder expires
-    let zeroLenRestart := s.scn.get "client" == "chrome" && natOf (m.get "att") ≥ 2 && m.get "echo" == "fail" &&
-      m.get "acc" == "ok" && m.get "cv" == m.get "sv" && m.get "calpn" == m.get "salpn" && m.get "c0" == m.get "s0" && m.get "cids" == "ok"
+    -- whatever the network and an attacker did: a client that completed holds connection IDs authenticated by
+    -- genuine packets, and a server that completed with it agrees on version, ALPN, 0-RTT and the client's ID
+    if m.get "ccids" != "ok" then
+      fails := fails ++ [("authenticated_cids_mismatch", "-", impl)]
+    if m.get "acc" == "ok" && !(m.get "cv" == m.get "sv" && m.get "calpn" == m.get "salpn" && m.get "calpn" != "" &&
+        m.get "c0" == m.get "s0" && m.get "cids" == "ok") then
+      fails := fails ++ [("success_without_agreement", "-", impl)]
+    let agree := m.get "acc" == "ok" && m.get "echo" == "ok"
+    -- defect repaired in /repo (46d8c7c): with a zero-length source connection ID (Chrome parrot) a dial restarted after
+    -- Version Negotiation lost its packet-handler entry when the first attempt's closed-connection placeholder expired
+    let zeroLenRestart := s.scn.get "client" == "chrome" && natOf (m.get "att") ≥ 2 && m.get "echo" == "fail" && m.get "acc" == "ok"
     if !agree && zeroLenRestart then
       fails := fails ++ [("success_without_agreement", "zero_len_scid_restart_unroutable", impl)]
     else if !agree then
+      -- the server side did not complete or the connection does not work: judged at the end of the case
       pending := some impl
     if vn == "fail" then
       fails := fails ++ [("success_without_common_version", "-", impl)]
